@@ -7,7 +7,7 @@ from hypothesis import strategies as st
 
 from .. import dimsegen as dg
 from .. import refcmd, refpdu
-from ..common import Violation, HarnessError, hyp_search, parallel, lib_frame
+from ..common import Violation, HarnessError, hyp_search, parallel, lib_frame, quiet_warnings
 
 LEVEL = 'exploration'
 SOURCES = ('bytes', 'bytesio', 'file', 'offset', 'gzip', 'bytesio-offset')
@@ -163,7 +163,7 @@ def grid_lengths(M):
 
 
 def run_grid(ctx, job):
-    warnings.simplefilter('ignore')
+    quiet_warnings()
     lo, hi = job['m_lo'], job['m_hi']
     for M in range(lo, hi + 1):
         for L in grid_lengths(M):
@@ -299,7 +299,7 @@ def scale_case(M, n_frags, source):
 
 
 def run_scale(ctx, job):
-    warnings.simplefilter('ignore')
+    quiet_warnings()
     M, n_frags, source = job['M'], job['frags'], job['source']
     ctx.case(('scale', M, n_frags, source), True, labels=['many-fragments', 'frags>=%d' % (n_frags // 10000 * 10000)],
              sample={'max_pdu': M, 'fragments': n_frags, 'source': source})
@@ -321,12 +321,12 @@ def run_random(ctx, n):
 
 
 def shard_random(ctx, job):
-    warnings.simplefilter('ignore')
+    quiet_warnings()
     run_random(ctx, job['n'])
 
 
 def run(ctx):
-    warnings.simplefilter('ignore')
+    quiet_warnings()
     try:
         refcmd.self_test()
         refpdu.self_test()
@@ -360,7 +360,7 @@ def run(ctx):
 
 
 def replay(case):
-    warnings.simplefilter('ignore')
+    quiet_warnings()
     if case.get('scale'):
         scale_case(case['M'], case['frags'], case['source'])
         return
